@@ -55,9 +55,13 @@ ASSUMPTIONS = ['numbers are abstract tokens: the model is compared with the impl
 HOSTILE = ['<', '>', '&', '"', "'", ']]>', '\x00', '\x01', '\x08', '\x0b', '\x0c', '\x1f', '\x7f', '\x85', '\t', '\n',
            '\r', 'é', 'ß', '中', '😀', '\ud800', '\udfff', '\ufffe', '\uffff', '&amp;', '&#60;', '<!--', '<![CDATA[',
            '</text>', '</svg>', ' ', '', 'a', 'Z', '7', '-', '=', '/>', '\\', '%', '{}', '{0}']
+HOSTILE_COLORS = ['<', 'a"b', 'a&b', "x'y>", 'c\x01', 'x' * 70, 'y' * 63 + '"<', 'ab\x00', '\ud800']
 NEEDS_SANITISING = set('<>&"\'') | {chr(c) for c in list(range(0, 9)) + [11, 12] + list(range(14, 32))} | \
     {'\ud800', '\udfff', '\ufffe', '\uffff'}
-COLORS = ['red', 'blue', 'green', 'black', 'gray', '#ff0000', 'rgb(1, 2, 3)', 'orange', 'white']
+COLORS = ['red', 'blue', 'green', 'black', 'gray', '#ff0000', 'rgb(1, 2, 3)', 'orange', 'white',
+          # hostile colour strings: markup, quotes, characters XML cannot represent, more than 64 characters (numpy
+          # 'U64' arrays truncate), NULs (numpy str arrays drop trailing ones)
+          '<', 'a"b', 'a&b', "x'y>", '\u00e9<', 'c\x01', 'x' * 70, 'y' * 63 + '"<', 'a\x00b', 'ab\x00', '\ud800', '']
 
 
 # ---- protocol encoding ----------------------------------------------------------------------
@@ -1212,6 +1216,12 @@ def option_matrix_descs():
         {'edge_width': 3}, {'edge_width_min': 1, 'edge_width_max': 5, 'display_edge_weight': True},
         {'display_edge_weight': True}, {'display_edge_weight': False}, {'edge_color': 'blue'}, {'edge_color': 'rgb(1, 2, 3)'},
         {'font_size': 8}, {'font_size': 20, 'name_position': 'above'},
+    ] + [{'node_color': c} for c in HOSTILE_COLORS] + [{'edge_color': c} for c in HOSTILE_COLORS] + [
+        {'labels': ['L', [0, 1, 2, 3]], 'label_colors': ['L', HOSTILE_COLORS[:4]]},
+        {'labels': ['L', [0, 1, 2, 5]], 'label_colors': ['D', [[k, c] for k, c in enumerate(HOSTILE_COLORS[3:])]]},
+        {'probs': probs, 'label_colors': ['L', HOSTILE_COLORS[4:7]]},
+        {'edge_labels': [[0, 1, 0], [3, 0, 1], [1, 3, 2]], 'label_colors': ['L', HOSTILE_COLORS[:3]]},
+        {'edge_labels': [[0, 1, 0], [3, 0, 5]], 'label_colors': ['D', [[0, HOSTILE_COLORS[5]], [5, HOSTILE_COLORS[7]]]]},
     ]
     k = 0
     for g in (g1, g2):
@@ -1222,7 +1232,7 @@ def option_matrix_descs():
                 if directed is not None:
                     oo['directed'] = directed
                 d = {'f': 'visualize_graph', 'position': pos, 'opts': oo, 'file': k % 7 == 0, 'alias': k % 11 == 0,
-                     'names': names if k % 3 else None, 'names_array': [False, True, 'str'][k % 3],
+                     'names': names if k % 4 else None, 'names_array': [False, True, 'str'][k % 3],
                      'dtype': 'float', 'sig': {'stream': 'option-matrix'}}
                 d.update(g)
                 out.append(d)
@@ -1247,6 +1257,10 @@ def option_matrix_descs():
         {'display_edges': False}, {'edge_labels': [[0, 2, 1], [1, 0, 3], [0, 0, 12]]},
         {'edge_labels': [[0, 2, 1]], 'label_colors': ['D', [[1, 'red']]]}, {'edge_width': 3, 'display_edge_weight': False},
         {'edge_width_min': 1, 'edge_width_max': 4}, {'edge_color': 'blue'}, {'edge_color': None}, {'font_size': 20},
+    ] + [{'color_row': c, 'color_col': HOSTILE_COLORS[(k + 1) % len(HOSTILE_COLORS)], 'edge_color': HOSTILE_COLORS[k - 1]}
+         for k, c in enumerate(HOSTILE_COLORS)] + [
+        {'labels_row': ['L', [0, 1]], 'labels_col': ['L', [2, 3, 4]], 'label_colors': ['L', HOSTILE_COLORS[:5]]},
+        {'probs_row': prow, 'label_colors': ['L', HOSTILE_COLORS[5:7]]},
     ]
     for k, o in enumerate(bsingle):
         oo = dict({'reorder': False}, **o)
@@ -1267,10 +1281,14 @@ def option_matrix_descs():
         {'colors': ['D', [[0, 'red'], [1, 'blue']]]}, {'colors': ['A', ['red']], 'n_clusters': 3},
         {'width': 200, 'height': 100}, {'margin': 0, 'margin_text': 10}, {'scale': 2}, {'line_width': 0.5},
         {'font_size': 20}, {'font_size': 8, 'rotate': True},
+    ] + [{'color': c, 'colors': ['L', [HOSTILE_COLORS[k - 1]]], 'n_clusters': 2, 'rotate': k % 2 == 0}
+         for k, c in enumerate(HOSTILE_COLORS)] + [
+        {'colors': ['D', [[0, HOSTILE_COLORS[1]], [1, HOSTILE_COLORS[7]]]], 'n_clusters': 2},
+        {'colors': ['A', HOSTILE_COLORS[4:8]], 'n_clusters': 3},
     ]
     for k, o in enumerate(dsingle):
         out.append({'f': 'visualize_dendrogram', 'dendrogram': D, 'opts': dict(o), 'file': k % 4 == 0, 'alias': k % 6 == 0,
-                    'names': _names('a<b', 'x\x01', 'q"', 'caf\u00e9') if k % 3 != 2 else None,
+                    'names': _names('a<b', 'x\x01', 'q"', 'caf\u00e9') if k % 4 != 2 else None,
                     'names_array': [False, True, 'str'][k % 3], 'sig': {'stream': 'option-matrix'}})
     return out
 
